@@ -1,13 +1,13 @@
 SPECIFICATION Spec
 CONSTANTS
   SID = {1}
-  Profiles <- ProfChain
+  Profiles <- ProfSmall
   MaxVal = 0
-  DEV <- Dev_SkipUnflagged
-  MaxVer = 3
+  DEV <- NoDev
+  MaxVer = 4
   WithSnap = FALSE
   SelfCopy = TRUE
 CONSTRAINT VerBound
 VIEW View
-INVARIANTS Refinement
+INVARIANTS TypeOK SysStageLeMin Refinement StrongRefinement ValuesAgree RecVerLeVer PrereqsExist
 CHECK_DEADLOCK FALSE
